@@ -13,7 +13,7 @@
    current tree.  [executed s] is the log of (item, clock when it was popped for its callback).
    [fresh_ids evs]: every Enqueue call hands over a distinct object. *)
 From Kit Require Import C06.Model C06.Spec C06.Check C06.ProofsQueue C06.ProofsInv C06.Proofs
-  C06.ProofsProgress C06.ProofsOracle C06.ProofsExamples.
+  C06.ProofsProgress C06.ProofsOracle C06.ProofsExamples C06.ProofsOnTime.
 
 (* Exactly once, and only live instances (both versions of the code).  Whatever happened before
    ([evs]), one more event [e] either leaves the execution log alone or appends exactly one entry
@@ -177,6 +177,56 @@ Theorem C06_rest : forall v t evs s,
                  stopch s = false /\ (clock s < dl)%Z /\ (idue r <= dl)%Z)).
 Proof. exact rest_shape. Qed.
 Print Assumptions C06_rest.
+
+(* On time, upper bound.  Fairness hypothesis, on the schedule: [trun] is [run] restricted to
+   TIMELY schedules - the clock is advanced only when no internal event is enabled (the timer
+   delivery, the loop's steps, the callback's return all happen before time moves on).  Then, code
+   after the fix: whenever the processor is at rest and the stop channel is open, NO queued item
+   has a scheduled time the clock has reached - every item whose time has come has been handed to
+   the callback.  (The timer is armed for exactly the head's time: no drift.) *)
+Theorem C06_on_time : forall t evs s,
+  trun Fixed (init_at t) evs s -> at_rest Fixed s -> stopch s = false ->
+  forall x, In x (q s) -> (clock s < idue x)%Z.
+Proof. exact on_time_rest. Qed.
+Print Assumptions C06_on_time.
+
+(* The same for both versions of the code whenever a loop goroutine is alive (what the stranding
+   defect of the code before the fix breaks is exactly "a loop is alive"). *)
+Theorem C06_on_time_loop_alive : forall v t evs s,
+  trun v (init_at t) evs s -> at_rest v s -> loop s <> LNone ->
+  forall x, In x (q s) -> (clock s < idue x)%Z.
+Proof. exact on_time_rest_alive. Qed.
+Print Assumptions C06_on_time_loop_alive.
+
+(* The execution timestamp.  After a timely schedule the clock jumps by d (from a rest state s1,
+   stop channel open); an item handed to the callback before the next jump is stamped with the
+   clock value right after the jump, which is less than 0.5 ms before its scheduled time or later;
+   and if the item was already queued before the jump, it was not yet due then: its timestamp is
+   the first clock value at or after (or within 0.5 ms before) its scheduled time. *)
+Theorem C06_on_time_timestamp : forall t evs1 s1 d s2 evs2 s3 e s4 it tm,
+  trun Fixed (init_at t) evs1 s1 -> at_rest Fixed s1 -> stopch s1 = false ->
+  step Fixed s1 (EvAdvance d) = Some s2 ->
+  Forall not_advance evs2 -> run Fixed s2 evs2 = Some s3 ->
+  step Fixed s3 e = Some s4 -> executed s4 = (it, tm) :: executed s3 ->
+  tm = (clock s1 + d)%Z /\ (idue it - half_ms < tm)%Z /\ (In it (q s1) -> (clock s1 < idue it)%Z).
+Proof. exact on_time_exec. Qed.
+Print Assumptions C06_on_time_timestamp.
+
+(* Order, over the whole log (both versions, every schedule): take any moment s1 of any schedule
+   and everything that happens afterwards.  The log entries appended since ([new], newest first)
+   satisfy: an item that was in the queue at s1 is handed to the callback only after everything
+   handed over since s1 had an earlier or equal scheduled time ([ordered_since]); in particular
+   the entries appended since s1, oldest first, restricted to the items that were queued at s1,
+   are sorted by scheduled time.  (Items that are simultaneously queued and due run in
+   scheduled-time order; an implementation that pops a batch of due items in another order
+   violates this.) *)
+Theorem C06_order_trace : forall v t evs1 s1 evs2 s,
+  fresh_ids (evs1 ++ evs2) -> run v (init_at t) evs1 = Some s1 -> run v s1 evs2 = Some s ->
+  exists new, executed s = new ++ executed s1 /\
+              ordered_since (q s1) new /\
+              Sorted.StronglySorted due_le (filter (was_queued (q s1)) (rev new)).
+Proof. exact order_sorted. Qed.
+Print Assumptions C06_order_trace.
 
 (* The boolean oracle evaluated on what the implementation was observed to do decides the
    specification of Spec.v (exactly once, not early, in order, removed items never run, due live
